@@ -297,6 +297,7 @@ func (*c18) Generate(r *rand.Rand, i int) any {
 	for k := 0; k < 8; k++ {
 		c.CPairs = append(c.CPairs, c18CPairGen(r))
 	}
+	c.OCI = append(c.OCI, c18OCIGen(r))
 	return c
 }
 
@@ -380,6 +381,8 @@ func (*c18) Corpus() []any {
 		}
 	}
 	out = append(out, q)
+	// paged OCI tag listings (first: the witness of seeded change C18-7)
+	out = append(out, c18Case{File: c18File{Mode: "empty"}, OCI: c18OCICorpus()})
 	return out
 }
 
@@ -387,7 +390,7 @@ func (*c18) Corpus() []any {
 // pre-releases, spellings of one class and an invalid string, queried with a fixed battery.
 func (*c18) Exhaustive(tier string) []any {
 	if tier != "thorough" {
-		return nil
+		return c18OCISplits(false)
 	}
 	pool := []string{"1.0.0", "v1.0", "1.0.0+b", "1.0.0-rc.1", "1.0.0-beta.11", "1.0.0-beta.2", "1.1.0", "0.9", "2.0.0-alpha", "latest", "<null>"}
 	qs := []string{"", "1.0.0", "^1", "~1.0", ">=1.0.0-0", "<1.0.0", "*", "2.x", ">=1.0.0-beta.2 <1.0.0"}
@@ -408,6 +411,7 @@ func (*c18) Exhaustive(tier string) []any {
 		}
 	}
 	out = append(out, c18CExhaustive()...)
+	out = append(out, c18OCISplits(true)...)
 	return out
 }
 
@@ -429,6 +433,24 @@ func (*c18) Shrink(ci any, fails func(c any) bool) any {
 	cur := clone(c)
 	if !fails(cur) {
 		return c
+	}
+	for i := len(cur.OCI) - 1; i >= 0; i-- {
+		cand := clone(cur)
+		cand.OCI = append(append([]c18OCI{}, cand.OCI[:i]...), cand.OCI[i+1:]...)
+		if fails(cand) {
+			cur = cand
+		}
+	}
+	for oi := range cur.OCI { // fewer version arguments
+		for i := len(cur.OCI[oi].Versions) - 1; i >= 0; i-- {
+			cand := clone(cur)
+			cand.OCI = append([]c18OCI{}, cur.OCI...)
+			vs := cur.OCI[oi].Versions
+			cand.OCI[oi].Versions = append(append([]string{}, vs[:i]...), vs[i+1:]...)
+			if fails(cand) {
+				cur = cand
+			}
+		}
 	}
 	if len(cur.CPairs) > 0 { // the constraint pairs play no part in the oracle
 		cand := clone(cur)
